@@ -88,6 +88,40 @@ Definition number_node (first_child : bool) (parent_revno : option revno) (count
       ((if rc =? 0 then [1] else [0; rc; 1]), nset 0 rc counts)
   end.
 
+(* push_node: the left-hand parent, unless it is a ghost ("consider it not to exist") *)
+Definition left_parent (g : dag) (n : revid) : option revid :=
+  match parents g n with
+  | p :: _ => if present g p then Some p else None
+  | [] => None
+  end.
+(* first_child = parent_info[1]; parent_info[1] = False *)
+Definition is_first_child (lp : option revid) (st : ms_state) : bool :=
+  match lp with
+  | Some p => negb (memb p (ms_claimed st))
+  | None => false
+  end.
+Definition claim (lp : option revid) (st : ms_state) : ms_state :=
+  match lp with
+  | Some p => mkMS (ms_sched st) (add p (ms_claimed st)) (ms_counts st)
+  | None => st
+  end.
+
+(* the order in which the pending parents are taken: the left-hand parent
+   first at the same depth (pop(0)), then the others from the right (pop())
+   one level deeper *)
+Definition visit_plan (ps : list revid) (depth : nat) : list (revid * nat) :=
+  match ps with
+  | [] => []
+  | p :: rest => (p, depth) :: map (fun q => (q, S depth)) (rev rest)
+  end.
+
+(* pop_node: number the node, schedule it *)
+Definition pop_node (n : revid) (depth : nat) (lp : option revid) (first_child : bool) (st : ms_state)
+  : ms_state :=
+  let parent_revno := match lp with Some p => assigned_revno st p | None => None end in
+  let '(rv, counts') := number_node first_child parent_revno (ms_counts st) in
+  mkMS ((n, depth, rv) :: ms_sched st) (ms_claimed st) counts'.
+
 (* One "call frame" of the flattened depth-first search: push_node, the
    parents, pop_node.  [fuel] only has to exceed the node (parents are smaller
    or ghosts); a completed or ghost parent is skipped. *)
@@ -95,32 +129,17 @@ Fixpoint ms_visit (g : dag) (fuel : nat) (n : revid) (depth : nat) (st : ms_stat
   match fuel with
   | 0 => st
   | S f =>
-      let ps := parents g n in
-      (* push_node: the left-hand parent, unless it is a ghost *)
-      let lp := match ps with
-                | p :: _ => if present g p then Some p else None
-                | [] => None
-                end in
-      let first_child := match lp with
-                         | Some p => negb (memb p (ms_claimed st))
-                         | None => false
-                         end in
-      let st1 := match lp with
-                 | Some p => mkMS (ms_sched st) (add p (ms_claimed st)) (ms_counts st)
-                 | None => st
-                 end in
-      let descend := fun (q : revid) (d : nat) (s : ms_state) =>
-                       if completed s q || ghost g q then s else ms_visit g f q d s in
-      let st2 := match ps with
-                 | [] => st1
-                 | p :: rest =>
-                     fold_left (fun s q => descend q (S depth) s) (rev rest) (descend p depth st1)
-                 end in
-      (* pop_node *)
-      let parent_revno := match lp with Some p => assigned_revno st2 p | None => None end in
-      let '(rv, counts') := number_node first_child parent_revno (ms_counts st2) in
-      mkMS ((n, depth, rv) :: ms_sched st2) (ms_claimed st2) counts'
+      let lp := left_parent g n in
+      let descend := fun (s : ms_state) (qd : revid * nat) =>
+                       if completed s (fst qd) || ghost g (fst qd) then s
+                       else ms_visit g f (fst qd) (snd qd) s in
+      pop_node n depth lp (is_first_child lp st)
+               (fold_left descend (visit_plan (parents g n) depth) (claim lp st))
   end.
+
+(* the same, named, for the theory *)
+Definition ms_descend (g : dag) (f : nat) (s : ms_state) (qd : revid * nat) : ms_state :=
+  if completed s (fst qd) || ghost g (fst qd) then s else ms_visit g f (fst qd) (snd qd) s.
 
 (* the scheduled list for a tip (newest first), without end_of_merge *)
 Definition merge_sorted (g : dag) (tip : option revid) : list ms_entry :=
